@@ -154,6 +154,7 @@ type TB struct {
 	nextID int32
 	vars   []*Term
 	NoSimp bool
+	linFlat bool
 	// path-sensitive interval refinements and the interval memo
 	refU   map[*Term][2]uint64
 	refS   map[*Term][2]int64
